@@ -31,6 +31,9 @@ RULE = ('grid/: EXHAUSTIVE lattice lengths 2^0..2^L (quick L=10, thorough L=14) 
         'case with at least 2 elements. Distinct by (length, block, style) / (shape, value kind, key) / (tree structure, '
         'leaf shapes, key).')
 RULE += (' Wave-4 addition: caller-owned inputs of rotation / un-rotation (array or tree, key, shapes) are snapshotted and must be alive and unchanged after the call; the same rotated array is un-rotated twice.')
+# Configuration shards (vmon.run): the cases of the plain shard with the given index are run once more in a process started
+# under an environment the library is supposed to be indifferent to.
+CONFIGS = {'quick': [{'name': 'threefry-nonpartitionable', 'env': {'JAX_THREEFRY_PARTITIONABLE': '0'}, 'shard': 1}], 'thorough': [{'name': 'threefry-nonpartitionable', 'env': {'JAX_THREEFRY_PARTITIONABLE': '0'}, 'shard': 1}, {'name': 'rbg-prng', 'env': {'JAX_DEFAULT_PRNG_IMPL': 'rbg'}, 'shard': 2}]}
 ASSUMPTIONS = [
     'float32 inputs (x64 disabled); tolerance 1e-4*||x||_2*sqrt(n) per output entry for the transform, relative 1e-4 for '
     'norms, 1e-4*|x_i| + 1e-5*||x||_2 per entry for the inverse rotation',
